@@ -52,6 +52,7 @@ where
     }
     let quarantined_before = quarantined_set(&world);
     world.reconcile_dir(CORRUPTED);
+    ctx.force_update_since_open.set(false);
     *ctx.active_known.borrow_mut() = Some(storage.has_active_blob().await);
     ctx.ignored.borrow_mut().clear();
     if si > 0 && matches!(plan.sessions[si - 1].end, SessionEnd::Killed | SessionEnd::PowerLoss(_)) && ctx.crashed.get() {
@@ -486,6 +487,8 @@ where
     crate::faults::apply_at_rest(ctx, damage);
     let mut sess2 = plan.sessions[si].clone();
     sess2.lazy_init = lazy;
+    ctx.reopen_count.set(ctx.reopen_count.get() + 1);
+    sess2.bloom_use_alt = ctx.reopen_count.get() % 2 == 1;
     let mut s2: Storage<K> = build_storage::<K>(&plan.store, &sess2, &ctx.dir);
     let init_tag = Some(Tag { client: 0, uid });
     let fault_seq_before_init = world.inner.borrow().last_fault_seq;
@@ -516,6 +519,8 @@ where
     }
     let quarantined_before: BTreeSet<usize> = world.inner.borrow().shadows.iter().filter(|(_, s)| s.quarantined).filter_map(|(n, _)| if let FileKind::Blob(id) = classify(n) { Some(id) } else { None }).collect();
     world.reconcile_dir(CORRUPTED);
+    ctx.force_update_since_open.set(false);
+    ctx.order_anomaly_reported.set(false);
     observe_ignored::<K>(ctx, &s2, sess2.ignore_corrupted.unwrap_or(plan.store.ignore_corrupted)).await;
     // a record left behind by a failed or cancelled operation may stay invisible for good (an index
     // file written at close describes the blob without it), or appear when the index is regenerated
@@ -641,6 +646,9 @@ where
     let plan = ctx.plan.clone();
     let world = ctx.world.clone();
     let tag = Some(Tag { client, uid: op.uid });
+    if matches!(&op.kind, OpKind::ForceUpdate(_)) || matches!(&op.kind, OpKind::Cancelled { op: inner, .. } if matches!(**inner, OpKind::ForceUpdate(_))) {
+        ctx.force_update_since_open.set(true);
+    }
     let fault_free = plan.faults.is_empty();
     let stepwise = plan.check_each_step && plan.sessions[si].clients.len() == 1;
     let fault_seq_before = world.inner.borrow().last_fault_seq;
